@@ -146,7 +146,7 @@ def run_group(g, woven, scratch, want_trace=False):
     os.makedirs(gdir, exist_ok=True)
     res = dict(id=gid, status='undecided', reason='', obligations=[], solver_s=0.0, build_s=0.0,
                backend=None, level=g['level'], functions=g['functions'], props=g['props'],
-               bound=g.get('bound'), route=g['route'], enforce=g.get('enforce'), replace=g['replace'])
+               bound=g.get('bound'), supplementary=g.get('supplementary', False), route=g['route'], enforce=g.get('enforce'), replace=g['replace'])
     harness = os.path.join(VERIF, g['harness'])
     entry = g['entry']
     a_gb = os.path.join(gdir, 'a.gb')
@@ -334,7 +334,7 @@ def run_groups(sel, tier, scratch, keep=False):
             if hit and g['route'] != 'plain':
                 pre.append(dict(id=g['id'], status='undecided', reason='extraction break: contract anchors of %s do not fire (%s)' % (hit[0], broken[hit[0]]),
                                 obligations=[], solver_s=0.0, build_s=0.0, backend=None, level=g['level'], functions=g['functions'],
-                                props=g['props'], bound=g.get('bound'), route=g['route'], enforce=g.get('enforce'), replace=g.get('replace', [])))
+                                props=g['props'], bound=g.get('bound'), supplementary=g.get('supplementary', False), route=g['route'], enforce=g.get('enforce'), replace=g.get('replace', [])))
             else:
                 keep.append(g)
         sel = keep
